@@ -83,6 +83,7 @@ func cmdFn(args []string) {
 	timeout := fs.Int("timeout", 10, "per-obligation timeout (s)")
 	dump := fs.String("dump", "", "write the queries of failing obligations to this directory")
 	all := fs.Bool("all", false, "also run unclaimed safety obligations")
+	expl := fs.String("explain", "", "for refuted obligations whose name contains this string: print the branch decisions of the model")
 	fs.Parse(args[1:])
 	key := args[0]
 	prog, sp, err := loadAll()
@@ -123,6 +124,9 @@ func cmdFn(args []string) {
 			solver = o.Result.Solver
 		}
 		fmt.Printf("%s %-70s %-8s %-7s %5.2fs %s  %s\n", mark, o.Name, st, solver, secs, o.Pos, trunc(o.Text, 70))
+		if !o.Held() && *expl != "" && strings.Contains(o.Name, *expl) {
+			fmt.Print(explain(o, 20))
+		}
 		if !o.Held() && *dump != "" {
 			os.MkdirAll(*dump, 0o755)
 			os.WriteFile(filepath.Join(*dump, sanitize(o.Name)+".smt2"), []byte(o.Query+"(get-model)\n"), 0o644)
@@ -294,6 +298,7 @@ func cmdCheck(args []string) int {
 
 	os.MkdirAll(filepath.Join(verifDir, "replays", *prop), 0o755)
 	violations := 0
+	var unreachable []string
 	discharged := 0
 	nonCover := 0
 	var reports []oblReport
@@ -318,6 +323,13 @@ func cmdCheck(args []string) int {
 		}
 		if !o.Cover {
 			nonCover++
+		}
+		if o.Cover && !o.Held() && strings.Contains(o.Name, "/reach@") {
+			// an unreachable program point is reported, not treated as a violation of the property: code that can
+			// not run can not break it (dead error handlers exist; recover() paths are dead by construction here)
+			fmt.Printf("NOTE: unreachable under the contracts: %s (%s)\n", o.Name, o.Pos)
+			unreachable = append(unreachable, o.Name)
+			continue
 		}
 		if o.Held() {
 			if !o.Cover {
@@ -371,6 +383,7 @@ func cmdCheck(args []string) int {
 			"per_obligation": reports,
 			"samples":     samples,
 			"vacuity_covers": len(obls) - nonCover - countKnown(obls),
+			"unreachable_sites": unreachable,
 			"timeout_s":   timeout,
 		},
 		"assumptions": assumptions,
